@@ -134,7 +134,11 @@ def factor_nulls(fname, df, reuse, clean=None):
                 fn(clean["x"], _state=state)
                 N |= K.null_positions(fn(df["x"], _state=state))
         else:
-            N |= K.null_positions(K.eval_factor(expr, df))
+            try:
+                value = K.eval_factor(expr, df)
+            except Exception:
+                return None  # the factor cannot be evaluated at all on this frame: no oracle, case skipped
+            N |= K.null_positions(value)
     return N
 
 
@@ -151,6 +155,8 @@ def run_one(case):
     reuse = entry in REUSE
     clean = K.build(K.frame_code(n, {"x": 0, "A": 0, "y": 0}, ik, td), "df") if reuse else None
     N = factor_nulls(fname, df, reuse, clean)
+    if N is None:
+        return False, [], True
     S = make_S(skind, n, extra)
     S0 = set(S) if S is not None else set()
     R = N | S0
@@ -239,8 +245,10 @@ def _features(case):
         feats.append("structured-formula")
     if entry == "NarwhalsMaterializer":
         feats.append("narwhals")
-    if td == "str":
+    if td.startswith("str"):
         feats.append("str-dtype")
+    if "/" in td:
+        feats.append("nullable-numeric-dtype")
     return feats
 
 
@@ -258,7 +266,9 @@ def _neutralize(case, feats):
         elif feat == "narwhals":
             entry = "PandasMaterializer"
         elif feat == "str-dtype":
-            td = "object"
+            td = "object" + td[3:]
+        elif feat == "nullable-numeric-dtype":
+            td = td.partition("/")[0]
     return (n, masks, ik, td, fname, na, s, entry, out)
 
 
@@ -267,7 +277,7 @@ def classify(case, clause, symptom):
     one feature neutralised at a time (non-unique index -> unique string labels, hashed(A) ->
     C(A), attribute overrides -> same attributes given at spec construction, structured formula
     -> one-sided formula over the same factors, narwhals -> pandas materializer, str dtype ->
-    object dtype).  'a&b': removing any one of them makes the clause hold (all needed);
+    object dtype, nullable Int64/Float64 numeric columns -> float64).  'a&b': removing any one of them makes the clause hold (all needed);
     'either(a,b)': only removing all of them together does (each alone suffices to break it)."""
     feats = _features(case)
 
@@ -300,7 +310,7 @@ def repro(case, clause):
     reuse = entry in REUSE
     df = K.build(K.frame_code(n, {"x": mx, "A": mA, "y": my}, ik, td))
     clean = K.build(K.frame_code(n, {"x": 0, "A": 0, "y": 0}, ik, td)) if reuse else None
-    N = sorted(factor_nulls(fname, df, reuse, clean))
+    N = sorted(factor_nulls(fname, df, reuse, clean) or ())
     S = make_S(skind, n, extra)
     src = K.PRELUDE
     src += K.frame_code(n, {"x": mx, "A": mA, "y": my}, ik, td)
@@ -328,7 +338,7 @@ def repro(case, clause):
         "        a = np.asarray(w.todense()) if scipy.sparse.issparse(w) else np.asarray(w)\n"
         "        for j, name in enumerate(names):\n"
         "            if name in ('x', 'y') and a.shape[1] == len(names):\n"
-        "                exp = df[name].to_numpy()[kept] if kept else np.zeros(0)\n"
+        "                exp = df[name].to_numpy(dtype=float, na_value=np.nan)[kept] if kept else np.zeros(0)\n"
         "                assert np.allclose(a[:, j].astype(float), exp, equal_nan=True), (name, a[:, j].tolist(), 'expected', exp.tolist())\n"
     )
     if na == "drop":
@@ -424,12 +434,14 @@ def exhaustive_cases(max_rows, formulas):
 
 def cross_cases(rng, reps, s_kinds):
     combos = list(itertools.product(CROSS_FORMULAS, ENTRIES, s_kinds, NA_ACTIONS))
-    side = list(itertools.product(K.INDEX_KINDS, OUTPUTS, K.TEXT_DTYPES))
+    side = list(itertools.product(K.INDEX_KINDS, OUTPUTS, K.FRAME_DTYPES))
     for ci, (fname, entry, skind, na) in enumerate(combos):
         order = list(range(len(side)))
         rng.shuffle(order)
         for r in range(reps):
             ik, out, td = side[order[r % len(order)]]
+            if na == "ignore":
+                td = td.partition("/")[0]  # what pd.NA cells do to a matrix under 'ignore' is not specified
             n = 1 + (ci + r) % 6 if r >= 2 else rng.choice([3, 4])
             # null density: sparse nulls are the interesting regime (some rows survive)
             p = rng.choice([0.0, 0.15, 0.3, 0.5])
@@ -452,6 +464,9 @@ def run_bounded(ctx):
         "rows (statement) or all rows outside the caller set (guide); the caller set is not examined",
         "A-C06-narwhals-index: index labels are only compared for the pandas materializer entry points "
         "(narwhals has no index concept)",
+        "A-C06-nullable: pandas nullable extension dtypes (Int64 / Float64 with pd.NA) are enumerated for drop and raise only; what "
+        "pd.NA cells do to a matrix under 'ignore' is not specified.  Cases whose factor expression cannot be evaluated stand-alone "
+        "(e.g. center() of an Int64 column holding pd.NA) have no oracle and are skipped and counted",
         "A-C06-row-identity: numeric columns hold pairwise distinct values, so value equality of row-local "
         "columns (tolerance rtol=1e-9; values are copied or multiplied by 0/1 only) identifies input rows",
     )
@@ -480,7 +495,8 @@ def run_bounded(ctx):
         "and without attribute overrides, re-used materialized spec with/without overrides, Pandas- and "
         "NarwhalsMaterializer) x caller set(None, empty, {0}, {last}, all"
         + (", random" if ctx.thorough else "")
-        + f") x na_action(3), each with {reps} seeded draws of (rows 1..6, null pattern, index kind, output, text dtype); "
+        + f") x na_action(3), each with {reps} seeded draws of (rows 1..6, null pattern, index kind, output, text dtype object/category/str, numeric dtype float64 or nullable "
+        "Int64/Float64 holding pd.NA -- the latter not under 'ignore'); "
         "non-trivial when at least one row has to go",
         exhaustive=False,
         bound="rows<=6, 3 columns",
